@@ -13,7 +13,8 @@
  *   CLOSE id | ABORT id                                                          -> err
  *   NDIMS id | DEFDIM id | DEFVAR id | PUTATT id | ENDDEF id | REDEF id | SYNC id | IPUT id |
  *   ATTACH id | DETACH id | INQPATH id                                             -> err [value]
- *   SETUP id                dims x(2048) t(unlimited) s(8), vars fx[x] rc[t][x] sm[s] rs[t][s] (NC_INT)   -> err
+ *   SETUP id                dims x(2048) t(unlimited) s(8), vars fx[x] rc[t][x] sm[s] rs[t][s] m2[s][s] (NC_INT), tx[s] (NC_CHAR)   -> err
+ *   ZREQ id <form>          one zero-length or argument-error request in the given API form (see zreq())          -> z err
  *   IOP id IPUT|BPUT|IGET fx|rc|sm|rs   post a nonblocking request; the harness keeps the user buffer     -> err
  *   CLOSE / ABORT / WAITALL append ` bufs=ok` / ` bufs=CHANGED(n)` when put buffers of that id were kept:
  *                           are they bit-identical to what the caller handed over?
@@ -106,7 +107,101 @@ static int setup(int id) {
     if ((err = ncmpi_def_var(id, "rc", NC_INT, 2, d2, &v)) != NC_NOERR) return err;
     if ((err = ncmpi_def_var(id, "sm", NC_INT, 1, &ds, &v)) != NC_NOERR) return err;
     d2[1] = ds;
-    return ncmpi_def_var(id, "rs", NC_INT, 2, d2, &v);
+    if ((err = ncmpi_def_var(id, "rs", NC_INT, 2, d2, &v)) != NC_NOERR) return err;
+    d2[0] = ds;
+    if ((err = ncmpi_def_var(id, "m2", NC_INT, 2, d2, &v)) != NC_NOERR) return err;   /* m2[8][8]: target of varm / vars / varn / vard forms */
+    return ncmpi_def_var(id, "tx", NC_CHAR, 1, &ds, &v);                                /* tx[8]: NC_ECHAR forms */
+}
+
+/* ZREQ id form: ONE request that transfers nothing — zero-length, or rejected for its arguments — in the given API form.
+   Such calls return before anything is queued, so whatever they allocate or construct (imap / buftype datatypes, packing
+   buffers) must be released on the spot.  No pending request is left behind, no file state changes.  Returns the error code. */
+static int zreq(int id, const char *f) {
+    int m2, tx, rc, err = NC_NOERR, req = NC_REQ_NULL, st, attached_here = 0, i;
+    static int buf[256];
+    static char cbuf[64];
+    MPI_Offset s0[2] = {0, 0}, cz[2] = {0, 8}, c22[2] = {2, 2}, c88[2] = {8, 8}, str2[2] = {2, 1}, str0[2] = {0, 1};
+    MPI_Offset imT[2] = {1, 8}, imC[2] = {8, 1}, sbad[2] = {9, 0}, cbig[2] = {9, 8}, im1[1] = {2}, c1[1] = {4};
+    MPI_Offset *starts[2], *counts[2], sa[2] = {0, 0}, sb[2] = {4, 4}, ca[2] = {0, 3}, cb[2] = {2, 0};
+    MPI_Datatype vec = MPI_DATATYPE_NULL, ftz = MPI_DATATYPE_NULL;
+    if ((err = ncmpi_inq_varid(id, "m2", &m2)) != NC_NOERR) return err;
+    if ((err = ncmpi_inq_varid(id, "tx", &tx)) != NC_NOERR) return err;
+    if ((err = ncmpi_inq_varid(id, "rc", &rc)) != NC_NOERR) return err;
+    for (i = 0; i < 256; i++) buf[i] = i;
+    starts[0] = sa; starts[1] = sb; counts[0] = ca; counts[1] = cb;
+    MPI_Type_vector(4, 1, 2, MPI_INT, &vec); MPI_Type_commit(&vec);            /* a derived, non-contiguous buftype */
+    MPI_Type_contiguous(0, MPI_INT, &ftz); MPI_Type_commit(&ftz);              /* a zero-size filetype */
+    if (!strncmp(f, "BP_", 3)) {                                                 /* bput forms need an attached buffer */
+        MPI_Offset bs = 0;
+        if (ncmpi_inq_buffer_size(id, &bs) != NC_NOERR) { if ((err = ncmpi_buffer_attach(id, 4096)) != NC_NOERR) goto done; attached_here = 1; }
+    }
+#define F(name) (!strcmp(f, name))
+    /* ---- blocking, collective */
+    if      F("B_PUTA_Z")        err = ncmpi_put_vara_int_all(id, m2, s0, cz, buf);
+    else if F("B_GETA_Z")        err = ncmpi_get_vara_int_all(id, m2, s0, cz, buf);
+    else if F("B_PUTA_Z_REC")    err = ncmpi_put_vara_int_all(id, rc, s0, cz, buf);
+    else if F("B_PUTS_Z")        err = ncmpi_put_vars_int_all(id, m2, s0, cz, str2, buf);
+    else if F("B_GETS_Z")        err = ncmpi_get_vars_int_all(id, m2, s0, cz, str2, buf);
+    else if F("B_PUTM_Z")        err = ncmpi_put_varm_int_all(id, m2, s0, cz, NULL, imT, buf);
+    else if F("B_GETM_Z")        err = ncmpi_get_varm_int_all(id, m2, s0, cz, NULL, imT, buf);
+    else if F("B_PUTM_ZC")       err = ncmpi_put_varm_int_all(id, m2, s0, cz, NULL, imC, buf);
+    else if F("B_PUTN_0")        err = ncmpi_put_varn_int_all(id, m2, 0, NULL, NULL, buf);
+    else if F("B_GETN_0")        err = ncmpi_get_varn_int_all(id, m2, 0, NULL, NULL, buf);
+    else if F("B_PUTN_Z")        err = ncmpi_put_varn_int_all(id, m2, 2, starts, counts, buf);
+    else if F("B_GETN_Z")        err = ncmpi_get_varn_int_all(id, m2, 2, starts, counts, buf);
+    else if F("B_PUTD_NULL")     err = ncmpi_put_vard_all(id, m2, MPI_DATATYPE_NULL, buf, 0, MPI_INT);
+    else if F("B_GETD_NULL")     err = ncmpi_get_vard_all(id, m2, MPI_DATATYPE_NULL, buf, 0, MPI_INT);
+    else if F("B_PUTD_Z")        err = ncmpi_put_vard_all(id, m2, ftz, buf, 0, MPI_INT);
+    else if F("B_GETD_Z")        err = ncmpi_get_vard_all(id, m2, ftz, buf, 0, MPI_INT);
+    else if F("B_PUTF_Z")        err = ncmpi_put_vara_all(id, m2, s0, cz, buf, 0, vec);
+    else if F("B_GETF_Z")        err = ncmpi_get_vara_all(id, m2, s0, cz, buf, 0, vec);
+    else if F("B_PUTMF_Z")       err = ncmpi_put_varm_all(id, m2, s0, cz, NULL, imT, buf, 0, vec);
+    else if F("B_VAR1_EINVALCOORDS") err = ncmpi_put_var1_int_all(id, m2, sbad, buf);
+    else if F("B_PUTM_EEDGE")    err = ncmpi_put_varm_int_all(id, m2, s0, cbig, NULL, imT, buf);
+    else if F("B_GETM_EINVALCOORDS") err = ncmpi_get_varm_int_all(id, m2, sbad, c22, NULL, imT, buf);
+    else if F("B_PUTM_ESTRIDE")  err = ncmpi_put_varm_int_all(id, m2, s0, c22, str0, imT, buf);
+    else if F("B_PUTM_ECHAR")    err = ncmpi_put_varm_int_all(id, tx, s0, c1, NULL, im1, buf);
+    else if F("B_PUTF_EEDGE")    err = ncmpi_put_vara_all(id, m2, s0, cbig, buf, 18, vec);
+    /* ---- nonblocking */
+    else if F("I_PUTA_Z")        err = ncmpi_iput_vara_int(id, m2, s0, cz, buf, &req);
+    else if F("I_GETA_Z")        err = ncmpi_iget_vara_int(id, m2, s0, cz, buf, &req);
+    else if F("I_PUTA_Z_REC")    err = ncmpi_iput_vara_int(id, rc, s0, cz, buf, &req);
+    else if F("I_PUTS_Z")        err = ncmpi_iput_vars_int(id, m2, s0, cz, str2, buf, &req);
+    else if F("I_GETS_Z")        err = ncmpi_iget_vars_int(id, m2, s0, cz, str2, buf, &req);
+    else if F("I_PUTM_Z")        err = ncmpi_iput_varm_int(id, m2, s0, cz, NULL, imT, buf, &req);
+    else if F("I_GETM_Z")        err = ncmpi_iget_varm_int(id, m2, s0, cz, NULL, imT, buf, &req);
+    else if F("I_PUTM_ZS")       err = ncmpi_iput_varm_int(id, m2, s0, cz, str2, imT, buf, &req);
+    else if F("I_PUTM_ZC")       err = ncmpi_iput_varm_int(id, m2, s0, cz, NULL, imC, buf, &req);
+    else if F("I_PUTN_0")        err = ncmpi_iput_varn_int(id, m2, 0, NULL, NULL, buf, &req);
+    else if F("I_GETN_0")        err = ncmpi_iget_varn_int(id, m2, 0, NULL, NULL, buf, &req);
+    else if F("I_PUTN_Z")        err = ncmpi_iput_varn_int(id, m2, 2, starts, counts, buf, &req);
+    else if F("I_GETN_Z")        err = ncmpi_iget_varn_int(id, m2, 2, starts, counts, buf, &req);
+    else if F("I_PUTF_Z")        err = ncmpi_iput_vara(id, m2, s0, cz, buf, 0, vec, &req);
+    else if F("I_GETF_Z")        err = ncmpi_iget_vara(id, m2, s0, cz, buf, 0, vec, &req);
+    else if F("I_PUTMF_Z")       err = ncmpi_iput_varm(id, m2, s0, cz, NULL, imT, buf, 0, vec, &req);
+    else if F("I_GETMF_Z")       err = ncmpi_iget_varm(id, m2, s0, cz, NULL, imT, buf, 0, vec, &req);
+    else if F("BP_PUTA_Z")       err = ncmpi_bput_vara_int(id, m2, s0, cz, buf, &req);
+    else if F("BP_PUTM_Z")       err = ncmpi_bput_varm_int(id, m2, s0, cz, NULL, imT, buf, &req);
+    else if F("BP_PUTMF_Z")      err = ncmpi_bput_varm(id, m2, s0, cz, NULL, imT, buf, 0, vec, &req);
+    else if F("BP_PUTN_Z")       err = ncmpi_bput_varn_int(id, m2, 2, starts, counts, buf, &req);
+    else if F("BP_PUTM_EEDGE")   err = ncmpi_bput_varm_int(id, m2, s0, cbig, NULL, imT, buf, &req);
+    else if F("I_PUTM_EEDGE")    err = ncmpi_iput_varm_int(id, m2, s0, cbig, NULL, imT, buf, &req);
+    else if F("I_GETM_EEDGE")    err = ncmpi_iget_varm_int(id, m2, s0, cbig, NULL, imT, buf, &req);
+    else if F("I_PUTM_EINVALCOORDS") err = ncmpi_iput_varm_int(id, m2, sbad, c22, NULL, imT, buf, &req);
+    else if F("I_PUTM_ESTRIDE")  err = ncmpi_iput_varm_int(id, m2, s0, c22, str0, imT, buf, &req);
+    else if F("I_PUTM_ECHAR")    err = ncmpi_iput_varm_int(id, tx, s0, c1, NULL, im1, buf, &req);
+    else if F("I_GETM_ECHAR")    err = ncmpi_iget_varm_text(id, m2, s0, c22, NULL, imT, cbuf, &req);
+    else if F("I_PUTMF_EEDGE")   err = ncmpi_iput_varm(id, m2, s0, cbig, NULL, imT, buf, 18, vec, &req);
+    else if F("I_GETF_EINVALCOORDS") err = ncmpi_iget_vara(id, m2, sbad, c22, buf, 1, vec, &req);
+    else err = -9999;
+#undef F
+    (void)c88;
+    /* whatever came back must not be a live request (it would change what close reports): complete it */
+    if (req != NC_REQ_NULL) { ncmpi_wait_all(id, 1, &req, &st); if (err == NC_NOERR) err = -9998; }
+    if (attached_here) ncmpi_buffer_detach(id);
+done:
+    MPI_Type_free(&vec); MPI_Type_free(&ftz);
+    return err;
 }
 /* IOP id IPUT|BPUT|IGET fx|rc|sm|rs : post one nonblocking request for the whole variable / record 0 */
 static int iop(int id, const char *kind, const char *var) {
@@ -256,6 +351,8 @@ int main(int argc, char **argv) {
                 printf("%s%d:%d", i ? " " : "", err, err ? -1 : id);
             }
             printf("\n");
+        } else if (!strcmp(tok[0], "ZREQ") && ntok == 3) {
+            printf("z %d\n", zreq(atoi(tok[1]), tok[2]));
         } else if (!strcmp(tok[0], "IOP") && ntok == 4) {
             printf("%d\n", iop(atoi(tok[1]), tok[2], tok[3]));
         } else if (!strcmp(tok[0], "SNAP")) {
